@@ -2,7 +2,6 @@
 package jsonSubProto
 
 import (
-	"bytes"
 	"encoding/json"
 	"fmt"
 	"io/ioutil"
@@ -61,8 +60,6 @@ func (j *jsonSubProto) Pack(m erpc.Message) error {
 		return err
 	}
 
-	// the body is embedded in a JSON string: escape backslashes as well as quotes
-	bodyBytes = bytes.Replace(bodyBytes, []byte{'\\'}, []byte{'\\', '\\'}, -1)
 	// join json format
 	s := fmt.Sprintf(format,
 		m.Seq(),
@@ -71,7 +68,7 @@ func (j *jsonSubProto) Pack(m erpc.Message) error {
 		m.Status(true).QueryString(),
 		m.Meta().QueryString(),
 		m.BodyCodec(),
-		bytes.Replace(bodyBytes, []byte{'"'}, []byte{'\\', '"'}, -1),
+		escapeBody(bodyBytes),
 		xferPipeIDsBytes,
 	)
 
@@ -81,6 +78,24 @@ func (j *jsonSubProto) Pack(m erpc.Message) error {
 
 	_, err = j.rw.Write(b)
 	return err
+}
+
+// escapeBody escapes the body bytes so that they can be embedded in a JSON string:
+// quotes, backslashes and control characters.
+func escapeBody(b []byte) []byte {
+	const hex = "0123456789abcdef"
+	out := make([]byte, 0, len(b)+16)
+	for _, c := range b {
+		switch {
+		case c == '"' || c == '\\':
+			out = append(out, '\\', c)
+		case c < 0x20:
+			out = append(out, '\\', 'u', '0', '0', hex[c>>4], hex[c&0xf])
+		default:
+			out = append(out, c)
+		}
+	}
+	return out
 }
 
 // Unpack reads bytes from the connection to the Message.
